@@ -492,12 +492,40 @@ theorem privCrypto_noPanic (C : CryptoOps) (kb : KeyBlockV) : (privCrypto C kb).
         · rename_i h; exact absurd h (getBytes_noPanic kb _)
       · simp
 
-theorem privPkcs8Pem_noPanic (C : CryptoOps) (kb : KeyBlockV) : (privPkcs8Pem C kb).NoPanic := by
+/-- `Pkcs8Pem` can only panic inside `x509.MarshalPKCS8PrivateKey`. -/
+theorem privPkcs8Pem_noPanic (C : CryptoOps) (hm : ∀ k, (C.marshalPKCS8 k).NoPanic) (kb : KeyBlockV) :
+    (privPkcs8Pem C kb).NoPanic := by
   intro m; unfold privPkcs8Pem
   split
-  · split <;> simp
+  · split
+    · simp
+    · simp
+    · rename_i h; exact absurd h (hm _ _)
   · simp
   · rename_i h; exact absurd h (privCrypto_noPanic C kb _)
+
+theorem privPkcs8Pem_panic_iff (C : CryptoOps) (kb : KeyBlockV) (m : String) :
+    privPkcs8Pem C kb = .panic m ↔ ∃ k, privCrypto C kb = .ok k ∧ C.marshalPKCS8 k = .panic m := by
+  unfold privPkcs8Pem
+  constructor
+  · intro h
+    cases hk : privCrypto C kb with
+    | ok k =>
+      rw [hk] at h
+      simp only at h
+      cases hm : C.marshalPKCS8 k with
+      | ok der => rw [hm] at h; cases h
+      | err e => rw [hm] at h; cases h
+      | panic m' =>
+        rw [hm] at h
+        simp only [Res.panic.injEq] at h
+        subst h
+        exact ⟨k, rfl, hm⟩
+    | err e => rw [hk] at h; cases h
+    | panic m' => exact absurd hk (privCrypto_noPanic C kb _)
+  · rintro ⟨k, hk, hm⟩
+    rw [hk]
+    simp only [hm]
 
 theorem certX509_noPanic (C : CryptoOps) (ty : Nat) (v : Bytes) : (certX509 C ty v).NoPanic := by
   intro m; unfold certX509
@@ -568,12 +596,13 @@ theorem getPrivateKey_noPanic (C : CryptoOps) (r : GetResp) : (getPrivateKey C r
     · exact privCrypto_noPanic C _ m
     · simp
 
-theorem getPemPrivateKey_noPanic (C : CryptoOps) (r : GetResp) : (getPemPrivateKey C r).NoPanic := by
+theorem getPemPrivateKey_noPanic (C : CryptoOps) (hm : ∀ k, (C.marshalPKCS8 k).NoPanic) (r : GetResp) :
+    (getPemPrivateKey C r).NoPanic := by
   intro m; unfold getPemPrivateKey
   split
   · simp
   · split
-    · exact privPkcs8Pem_noPanic C _ m
+    · exact privPkcs8Pem_noPanic C hm _ m
     · simp
 
 theorem getRsaPublicKey_noPanic (C : CryptoOps) (r : GetResp) : (getRsaPublicKey C r).NoPanic := by
@@ -615,7 +644,8 @@ theorem resAs_noPanic {α : Type} (r : Res α) (f : α → Out) (h : r.NoPanic) 
   | err e => simp [resAs]
   | panic m' => exact absurd rfl (h m')
 
-theorem run_noPanic (C : CryptoOps) (a : Accessor) (r : GetResp) : (run C a r).NoPanic := by
+theorem run_noPanic (C : CryptoOps) (hm : (a = .privPem ∨ a = .getPemPriv) → ∀ k, (C.marshalPKCS8 k).NoPanic)
+    (r : GetResp) : (run C a r).NoPanic := by
   intro m
   have herr : ∀ e : Err, (Res.err e : Res Out) ≠ .panic m := by intro e h; cases h
   cases a <;> simp only [run]
@@ -631,7 +661,7 @@ theorem run_noPanic (C : CryptoOps) (a : Accessor) (r : GetResp) : (run C a r).N
   case privRSA => split <;> first | exact resAs_noPanic _ _ (privRSA_noPanic C _) m | exact herr _
   case privECDSA => split <;> first | exact resAs_noPanic _ _ (privECDSA_noPanic C _) m | exact herr _
   case privCrypto => split <;> first | exact resAs_noPanic _ _ (privCrypto_noPanic C _) m | exact herr _
-  case privPem => split <;> first | exact resAs_noPanic _ _ (privPkcs8Pem_noPanic C _) m | exact herr _
+  case privPem => split <;> first | exact resAs_noPanic _ _ (privPkcs8Pem_noPanic C (hm (Or.inl rfl)) _) m | exact herr _
   case certX509 => split <;> first | exact resAs_noPanic _ _ (certX509_noPanic C _ _) m | exact herr _
   case certPem => split <;> first | exact resAs_noPanic _ _ (certPem_noPanic C _ _) m | exact herr _
   case getSecret => exact resAs_noPanic _ _ (getSecret_noPanic r) m
@@ -642,7 +672,7 @@ theorem run_noPanic (C : CryptoOps) (a : Accessor) (r : GetResp) : (run C a r).N
   case getRsaPriv => exact resAs_noPanic _ _ (getRsaPrivateKey_noPanic C r) m
   case getEcdsaPriv => exact resAs_noPanic _ _ (getEcdsaPrivateKey_noPanic C r) m
   case getPriv => exact resAs_noPanic _ _ (getPrivateKey_noPanic C r) m
-  case getPemPriv => exact resAs_noPanic _ _ (getPemPrivateKey_noPanic C r) m
+  case getPemPriv => exact resAs_noPanic _ _ (getPemPrivateKey_noPanic C (hm (Or.inr rfl)) r) m
   case getRsaPub => exact resAs_noPanic _ _ (getRsaPublicKey_noPanic C r) m
   case getEcdsaPub => exact resAs_noPanic _ _ (getEcdsaPublicKey_noPanic C r) m
   case getPub => exact resAs_noPanic _ _ (getPublicKey_noPanic C r) m
@@ -696,9 +726,16 @@ theorem unpoint_point (f : UInt8) (k : EcPub) : unpoint f (curveCode k.crv) (poi
   obtain ⟨h1, h2, h3⟩ := curve_facts k.crv
   simp [unpoint, point, h1, h2, h3, takeUn_un, takeUn_un_nil]
 
-theorem parsePKCS8_marshal (k : PrivAny RsaPriv EcPriv) (bs : Bytes) (h : marshalPKCS8 k = some bs) :
+theorem parsePKCS8_marshal (k : PrivAny RsaPriv EcPriv) (bs : Bytes) (h : marshalPKCS8 k = .ok bs) :
     parsePKCS8 bs = some k := by
-  cases k <;> simp [marshalPKCS8] at h <;> subst h <;> simp [parsePKCS8, deRsaPriv_ser, deEcPriv_ser]
+  cases k with
+  | rsa k => simp [marshalPKCS8] at h; subst h; simp [parsePKCS8, deRsaPriv_ser]
+  | ecdsa k =>
+    simp only [marshalPKCS8] at h
+    split at h
+    · cases h
+    · simp at h; subst h; simp [parsePKCS8, deEcPriv_ser]
+  | other => simp [marshalPKCS8] at h; subst h; simp [parsePKCS8]
 
 theorem parsePKIX_marshal (k : PubAny RsaPub EcPub) (bs : Bytes) (h : marshalPKIX k = some bs) :
     parsePKIX bs = some k := by
@@ -754,11 +791,12 @@ theorem rsaPriv_extract (C : Crypto) (kf : Nat) (k : C.RsaPriv) (o : Obj) (p q :
         ofOption, fPKCS1, C.parsePKCS1Priv_marshal]
     · split at h
       · split at h
-        · cases h
         · rename_i der hder
           cases h
           simp [getRsaPrivateKey, respOf, Obj.typeCode, rawKeyBytes, plainKB, privRSA, getBytes, getMaterial,
             fPKCS1, fPKCS8, C.parsePKCS8_marshal _ _ hder]
+        · cases h
+        · cases h
       · split at h
         · rw [hp] at h
           simp only at h
@@ -813,11 +851,12 @@ theorem ecPriv_extract (C : Crypto) (kf : Nat) (ver : Nat × Nat) (k : C.EcPriv)
           ofOption, fECPrivateKey, C.parseSEC1_marshal _ _ hder]
     · split at h
       · split at h
-        · cases h
         · rename_i der hder
           cases h
           simp [getEcdsaPrivateKey, respOf, Obj.typeCode, rawKeyBytes, plainKB, privECDSA, getBytes,
             getMaterial, fECPrivateKey, fPKCS8, C.parsePKCS8_marshal _ _ hder]
+        · cases h
+        · cases h
       · split at h
         · split at h
           · cases h
@@ -1076,24 +1115,31 @@ theorem symmetricFormat_mem (kf : Nat) :
     · exact Or.inr rfl
     · exact Or.inl rfl
 
-/-- the only panic of a register builder: `key.Primes[0]` / `key.Primes[1]` on an RSA private key with
-    fewer than two primes in the transparent format.  "Unexpected key format" is unreachable. -/
+/-- the only panics of a register builder: `key.Primes[0]` / `key.Primes[1]` on an RSA private key with
+    fewer than two primes in the transparent format, or a panic inside `x509.MarshalPKCS8PrivateKey`.
+    "Unexpected key format" is unreachable. -/
 theorem register_panic_only (C : CryptoOps) (kf : Nat) (ver : Nat × Nat) (key : AnyKey C) (m : String)
     (h : register C kf ver key = .panic m) :
-    ∃ k, key = .rsaPriv k ∧ (C.rsaPrivParts k).primes.length < 2 ∧ rsaPrivFormat kf = kfTransparent := by
+    (∃ k, key = .rsaPriv k ∧ (C.rsaPrivParts k).primes.length < 2 ∧ rsaPrivFormat kf = kfTransparent) ∨
+    (∃ pk, C.marshalPKCS8 pk = .panic m) := by
   cases key with
   | rsaPriv k =>
-    refine ⟨k, rfl, ?_⟩
     simp only [register, registerRsaPriv] at h
     split at h
     · cases h
     · split at h
       · cases h
       · split at h
-        · split at h <;> cases h
+        · split at h
+          · cases h
+          · cases h
+          · rename_i m' hm
+            simp only [Res.panic.injEq] at h
+            subst h
+            exact Or.inr ⟨_, hm⟩
         · split at h
           · rename_i hf
-            refine ⟨?_, hf⟩
+            refine Or.inl ⟨k, rfl, ?_, hf⟩
             split at h
             · cases h
             · rename_i hne
@@ -1120,15 +1166,21 @@ theorem register_panic_only (C : CryptoOps) (kf : Nat) (ver : Nat × Nat) (key :
           · rename_i h1 h2 h3
             rcases rsaPubFormat_mem kf with h | h | h <;> contradiction
   | ecPriv k =>
-    exfalso
     simp only [register, registerEcPriv] at h
     split at h
     · cases h
     · split at h
       · split at h <;> cases h
       · split at h
-        · split at h <;> cases h
         · split at h
+          · cases h
+          · cases h
+          · rename_i m' hm
+            simp only [Res.panic.injEq] at h
+            subst h
+            exact Or.inr ⟨_, hm⟩
+        · exfalso
+          split at h
           · split at h <;> cases h
           · rename_i h1 h2 h3
             rcases ecdsaPrivFormat_mem kf with h | h | h <;> contradiction
